@@ -64,11 +64,13 @@ ASSUMPTIONS = [
     "`if`) re-assigning a name already bound by a def/class/import/assignment of that scope; no TYPE_CHECKING blocks",
     "excluded by construction (only one agent can know them / inspector docs): all other conditional definitions, annotation-only attributes, "
     "callable instances, lambdas and class aliases as attribute values, sibling modules differing only by leading underscores, "
-    "(pairs differing by a TRAILING underscore, a / a_, are generated), member names equal to sub-module names, any binding of the "
+    "(pairs differing by a TRAILING underscore, a / a_, are generated), member names equal to sub-module names (docs, recommendations: "
+    "'Griffe does not support this kind of name shadowing ... During dynamic analysis, Griffe's behavior is undefined'), any binding of the "
     "top-level package inside its own __init__ (`import pkg.x`, or the package re-exported under another name by a sub-module and imported "
     "back: a self-reference, which the inspector drops by design as a cyclic member), wildcard imports "
     "from package __init__ modules",
     "names only assigned as self.x in __init__ are removed from the static side; dunder names are compared only when the source binds them",
+    "parameter defaults are literals or module-level sentinels (`object()`, an instance of a local marker class); only required-ness is compared",
     "method flavour (staticmethod/classmethod/property/cached) is read from labels both agents spell identically; other labels, "
     "`async`, attribute values, annotations and line numbers are not compared",
     "docstring presence is compared as well as the value: an empty or whitespace-only literal is a docstring with value '' on both sides "
